@@ -127,7 +127,7 @@ def generate(repo):
         val = lean_rat(q) if typ == "Rat" else str(int(q))
         return f"/-- {doc} -/\ndef {name} : {typ} := {val}\n\n"
     body = (d("quarter", "`v75 = state_1 - quarter*d01`, `v25 = state_0 + quarter*d01`", q75)
-            + d("spanFrac", "`t_span0/1 = t_center -/+ spanFrac*t_dist`", w0)
+            + d("spanFrac", "`t_span0 = t_center - spanFrac*t_dist`, `t_span1 = t_center + spanFrac*t_dist`", w0)
             + d("thrPoints", "`x = np.linspace(mu0, mu1, thrPoints)`", kpts, "Nat")
             + d("percent", "`shortest_int(..., percent=percent)`", pct[0])
             + d("eyeSigmas", "`eye_h = mu1 - eyeSigmas*s1 - mu0 - eyeSigmas*s0`", e1)
